@@ -8,7 +8,8 @@ From Coq Require Import List NArith.
 From PV Require Import Base.Bytes AVM.Syntax AVM.Machine Src.Expr Src.Denote
   Comp.Blocks Comp.Passes Comp.GraphSem Comp.SimCheck
   Proofs.LowerFrame Proofs.NormalizeSem Proofs.NormalizeGraph Proofs.IncomingProof
-  Proofs.NormalizeCorrect Proofs.NormalizeExamples.
+  Proofs.NormalizeCorrect Proofs.NormalizeExamples Proofs.LowerShape Proofs.NormalizeLowered.
+From PV Require Import Comp.Lower Comp.Compile.
 Import ListNotations.
 
 (* addIncoming, with the model's fuel 3 * S (g_next g): the blocks are untouched and every block
@@ -82,6 +83,34 @@ Theorem C20_add_incoming_normalize_tree_valid :
     validate_tree (fst (add_incoming g s)) s = true /\ validate_tree g' s' = true.
 Proof. exact add_incoming_normalize_tree_valid. Qed.
 Print Assumptions C20_add_incoming_normalize_tree_valid.
+
+(* for EVERY recipe lowered as a whole routine, neither validateTree call of compile_one can fail *)
+Theorem C20_lowered_tree_valid :
+  forall (o : copts) (c : lctx) (e : expr) (s en : id) (g0 g' : graph) (s' : id),
+    l_brk c = None -> l_cont c = None ->
+    lower o c e None empty_graph = ((s, en), g0) ->
+    normalize (fst (add_incoming g0 s)) s = (g', s') ->
+    validate_tree (fst (add_incoming g0 s)) s = true /\ validate_tree g' s' = true.
+Proof. exact lowered_tree_valid. Qed.
+Print Assumptions C20_lowered_tree_valid.
+
+(* compile_one itself, for every routine without a deferred expression (all but ABI-returning
+   subroutines): once PyTeal's own checks pass it returns a compiled routine — no AssertionError —
+   whose graph is the normalised lowered graph, equivalent to the lowered graph when the root is not
+   loop-headed *)
+Theorem C20_compile_one_tree_checks_pass :
+  forall (o : copts) (sub : option routine) (ast0 : expr),
+    (match sub with Some r => r_deferred r | None => None end) = None ->
+    check_expr o (option_map r_ret sub) false (root_ast ast0) = None ->
+    has_bad_continue false (root_ast ast0) = false ->
+    exists cr, compile_one o sub ast0 = COk cr /\
+      let pm := match sub with Some r => param_instr o r | None => main_param end in
+      let '((s, _), g0) := lower o (mkL (option_map r_ret sub) None None pm) (root_ast ast0) None empty_graph in
+      normalize (fst (add_incoming g0 s)) s = (cr_graph cr, cr_start cr) /\
+      (head_loop (root_ast ast0) = false ->
+       forall env, equiv_from env (g_blk g0) s (g_blk (cr_graph cr)) (cr_start cr)).
+Proof. exact compile_one_tree_checks_pass. Qed.
+Print Assumptions C20_compile_one_tree_checks_pass.
 
 (* ---- HISTORICAL: the code before the repair ---- *)
 (* DEFECT 1 (pinned code): an empty start block in front of a block with two predecessors.
